@@ -148,6 +148,12 @@ def strategy(tier):
         seeds = draw(st.lists(seed, min_size=draw(st.sampled_from([1, 2, 2, 3])), max_size=3))
         if len(seeds) >= 2 and draw(st.integers(0, 4)) == 0:
             seeds[1] = seeds[0]               # equally seeded neighbours must still be independent
+        elif len(seeds) >= 2 and draw(st.integers(0, 5)) == 0:
+            # distinct seeds with equal hash() (CPython reduces ints modulo 2**61 - 1; hash(-1) == hash(-2))
+            j = draw(st.sampled_from([1, 1, 2, 3, 2 ** 61]))
+            seeds[1] = seeds[0] + j * (2 ** 61 - 1) if seeds[0] >= 0 else seeds[0] - j * (2 ** 61 - 1)
+            if draw(st.booleans()):
+                seeds[0], seeds[1] = seeds[1], seeds[0]
         ops = draw(st.lists(op, min_size=draw(st.sampled_from([1, 10, 25, 40])), max_size=maxops))
         return {"kind": "prog", "seeds": seeds, "ops": ops}
 
@@ -457,7 +463,12 @@ def _run_prog(case, out):
     if best_replay:
         out.label("restore-replay>=3" if best_replay >= 3 else "restore-replay<3")
 
-    # ---- Independence: every stream alone
+    # ---- Independence: every stream alone - and after many other streams were created in between (the sequence
+    #      of a stream depends on its seed only, not on which streams the process created before it)
+    for i in range(300):
+        MersenneTwister(10 ** 6 + i)
+    if any(hash(a) == hash(b) and a != b for a in seeds for b in seeds):
+        out.label("seeds-with-equal-hash")
     solo = [None] * n
     for s in range(n):
         so, _ = _exec(flat, seeds, only=s)
@@ -845,3 +856,5 @@ TECHNIQUE = "Hypothesis op-list programs + metamorphic oracle (twin / reset / re
 
 
 RULE = RULE + " " + 'Later additions: in a third of the histories every third operation is carried out by another thread (started and joined, no concurrency).'
+RULE = RULE + (" Round 20: 300 unrelated streams are created between the interleaved run and the run of every stream "
+               "alone; one case in six pairs two distinct seeds with equal hash().")
